@@ -15,7 +15,35 @@ RULE = ("pairs of generated input sequences A, B (0-20 values, records and arbit
 OUTS = [[], ["--style", "consise"], ["--style", "pretty"], ["--utf8-strings"], ["-o", "csv"], ["-o", "text"], ["-o", "text", "--headers"]]
 
 
+def gen_two_printers_unit(rng):
+    """One member name (or string) reaches the text made by `stringify` in some records and the row printer in others: a run
+    has several printers with different settings, and what one of them made of a name is nothing to the other."""
+    names = ["\u00e9", "citt\u00e0", "\u65e5\u672c", "tab\there", "q\"uote", "\u2028", "plain"]
+
+    def recs(n):
+        out = []
+        for _ in range(n):
+            k = rng.choice(names)
+            where = rng.choice(("obj", "nest", "both", "s"))
+            r = {"i": rng.randint(0, 5)}
+            if where in ("obj", "both"):
+                r["obj"] = {k: 1, "a": rng.choice(names)}
+            if where in ("nest", "both"):
+                r["nest"] = {"x": {k: [k]}}
+            if where == "s":
+                r["s"] = k
+                r["obj"] = {"v": k}
+            out.append(jm.dumps(r))
+        return out
+    sel = rng.sample(["--select=(stringify .obj)=jo", "--select=.nest=nn", "--select=.obj=oo", "--select=(stringify .nest)=jn", "--select=(concat \"\" .s)=cs",
+                      "--select=(stringify .s)=js"], rng.choice((2, 3, 4)))
+    out = rng.choice([["--utf8-strings"], ["--utf8-strings", "--style", "consise"], ["-o", "text"], ["-o", "csv"], [], ["-o", "text", "--headers"]])
+    return {"args": sel + out, "A": recs(rng.choice((1, 2, 4))), "B": recs(rng.choice((1, 2, 4))), "headers": ("csv" in out or "--headers" in out), "funcs": ["stringify"]}
+
+
 def gen_unit(rng):
+    if rng.random() < 0.04:
+        return gen_two_printers_unit(rng)
     g = eg.Gen(rng, ill_typed=0.08, maxdepth=3)
     sc = eg.Scope()
     args = []
